@@ -38,15 +38,26 @@ PDC = repo("armi.reactor.parameters.parameterDefinitions:ParameterDefinitionColl
 NoDefault = repo("armi.reactor.parameters.parameterDefinitions:NoDefault")
 NEVER = repo("armi.reactor.parameters.parameterDefinitions:NEVER")
 Category = repo("armi.reactor.parameters.parameterDefinitions:Category")
+SINCE_ANYTHING = repo("armi.reactor.parameters.parameterDefinitions:SINCE_ANYTHING")
+SINCE_LAST_GEOMETRY_TRANSFORMATION = repo("armi.reactor.parameters.parameterDefinitions:SINCE_LAST_GEOMETRY_TRANSFORMATION")
 
 
 # ----------------------------------------------------------------------------- stand-ins (collaborators)
 class PMap:
+    """a parameter map; as in the real ParameterCollection, ASSIGNING a parameter marks its definition as assigned
+    "since anything" (here: every definition of mk_defs, the conservative reading of "some parameter was assigned")"""
+
     def __getitem__(self, k):
         return getattr(self, k)
 
     def __setitem__(self, k, v):
         setattr(self, k, v)
+
+    def __setattr__(self, k, v):
+        if GCParameters.ALL_DEFINITIONS is not None:
+            for d in GCParameters.ALL_DEFINITIONS:
+                d.assigned = SINCE_ANYTHING
+        object.__setattr__(self, k, v)
 
     def __contains__(self, k):
         return hasattr(self, k)
@@ -458,8 +469,8 @@ def a_full_core_is_left_alone(centre: int, inner: int, low1: int, up1: int, nb: 
     up1 = choose(up1, 0, 1)
     nb = choose(nb, 1, 2)
     assume(centre + inner + low1 + up1 > 0)
-    defs = mk_defs(f0, f1)
     core, r, pool, allA, lower, upper = build("full", centre, inner, low1, 0, up1, nb, maxNum, p0, p1, p2, fl)
+    defs = mk_defs(f0, f1)  # after the core is built: building it assigns parameters
     snap = snapshot_of(core, allA)
     ch = EdgeAssemblyChanger()
     ch.addEdgeAssemblies(core)
@@ -566,3 +577,29 @@ def half_values_on_both_halves_scaled_then_edges_removed_give_back_the_whole_hex
     ch.removeEdgeAssemblies(core)
     assert unchanged(core, pool, snap), "the whole-hexagon values are back on the assemblies of the 0-degree line, everything else as at entry"
     assert inv(core, pool) and str(core.symmetry) == "third periodic"
+
+
+@lemma(gen=GEN, stubs=STUBS, overrides=OVERRIDES, timeout=200)
+def with_the_edge_assemblies_in_place_no_parameter_counts_as_assigned_since_the_transformation(
+        centre: int, low1: int, low2: int, nb: int, maxNum: int, p0: float, p1: float, p2: float, fl: float, x: float):
+    """addEdgeAssemblies ENDS the geometry transformation: placing the copies assigns parameters (numbers, names - the
+    stand-in PMap marks every definition on each assignment, as the real setters do), yet on return no definition
+    counts as assigned SINCE_LAST_GEOMETRY_TRANSFORMATION - so scaleParamsRelatedToSymmetry combines only what a
+    solve assigns WHILE the edge assemblies are there, and values assigned earlier stay what they are.  A later
+    assignment is seen again."""
+    centre = choose(centre, 0, 1)
+    low1 = choose(low1, 0, 1)
+    low2 = choose(low2, 0, 1)
+    nb = choose(nb, 1, 2)
+    assume(low1 + low2 > 0)
+    defs = mk_defs(SINCE_ANYTHING, SINCE_ANYTHING)
+    core, r, pool, allA, lower, upper = build("third periodic", centre, 0, low1, low2, 0, nb, maxNum, p0, p1, p2, fl)
+    n = len(allA)
+    ch = EdgeAssemblyChanger()
+    ch.addEdgeAssemblies(core)
+    assert len(core._children) == n + len(lower), "the copies were placed"
+    for d in defs:
+        assert d.assigned & SINCE_LAST_GEOMETRY_TRANSFORMATION == 0, "nothing counts as assigned since the transformation"
+    assert len(GCParameters.ALL_DEFINITIONS.since(SINCE_LAST_GEOMETRY_TRANSFORMATION).names) == 0
+    core._children[n]._children[0].p.power = x
+    assert defs[0].assigned & SINCE_LAST_GEOMETRY_TRANSFORMATION != 0, "an assignment made with the edges in place is seen"
